@@ -287,8 +287,31 @@ def setup_stateful(cls):
                     for t in n.targets:
                         if isinstance(t, ast.Attribute) and isinstance(t.value, ast.Name) and t.value.id == "self":
                             created.add(t.attr)
+    # ... and scalar flags: bound to a constant once per instance, assigned by setup / configure AND read there in a condition
+    # ("do this only the first time"): whatever the guard protects is skipped from the second set-up on
+    flags = set()
+    for m in closure(["__init__", "initialize"]):
+        for n in ast.walk(methods[m]):
+            if isinstance(n, ast.Assign) and isinstance(n.value, ast.Constant):
+                for t in n.targets:
+                    if isinstance(t, ast.Attribute) and isinstance(t.value, ast.Name) and t.value.id == "self":
+                        flags.add(t.attr)
+    guard_flags = set()
+    if flags:
+        stored, tested = set(), set()
+        for m in closure(["setup", "configure"]):
+            for n in ast.walk(methods[m]):
+                if isinstance(n, (ast.Assign, ast.AugAssign)):
+                    for t in (n.targets if isinstance(n, ast.Assign) else [n.target]):
+                        if isinstance(t, ast.Attribute) and isinstance(t.value, ast.Name) and t.value.id == "self" and t.attr in flags:
+                            stored.add(t.attr)
+                if isinstance(n, (ast.If, ast.While, ast.IfExp)):
+                    for x in ast.walk(n.test):
+                        if isinstance(x, ast.Attribute) and isinstance(x.value, ast.Name) and x.value.id == "self" and x.attr in flags:
+                            tested.add(x.attr)
+        guard_flags = stored & tested
     if not created:
-        return []
+        return sorted(guard_flags)
     mutated, rebound = set(), set()
     for m in closure(["setup", "configure"]):
         for n in ast.walk(methods[m]):
@@ -304,7 +327,7 @@ def setup_stateful(cls):
                 a = _self_attr(n.func.value) if not (isinstance(n.func.value, ast.Attribute) and isinstance(n.func.value.value, ast.Name) and n.func.value.value.id == "self") else n.func.value.attr
                 if a in created:
                     mutated.add(a)
-    return sorted(mutated - rebound)
+    return sorted((mutated - rebound) | guard_flags)
 
 
 def extract(repo=REPO):
